@@ -8,7 +8,7 @@ ROOT = os.path.dirname(os.path.dirname(os.path.abspath(__file__)))
 SRC = os.path.join(ROOT, "coq", "src")
 
 def header(mod, name):
-    txt = open(os.path.join(SRC, mod + ".v"), encoding="utf-8").read()
+    txt = re.sub(r"\(\*.*?\*\)", "", open(os.path.join(SRC, mod + ".v"), encoding="utf-8").read(), flags=re.S)
     m = re.search(r"^(Theorem|Corollary|Lemma)\s+" + re.escape(name) + r"\b(.*?)(?:\.\s*\n?\s*Proof\b|\.\s+Proof\b)", txt, re.S | re.M)
     if not m: raise SystemExit(f"cannot find {mod}.{name}")
     return m.group(2).strip()
